@@ -58,6 +58,10 @@ def run(rep, pool, driver, tier):
                     kind = dict(r.choice(KINDS))
                     kind.update(events=es[a:b], n_jobs=r.choice([1, 2, 3]), per_job=r.choice([1, 2, 10]),
                                 per_file=r.choice([2, 10000000]))
+                    # the events argument in any of its documented forms (es is file-normalised, so the
+                    # in-memory forms denote the same events as the file)
+                    kind['form'] = r.choice(['path', 'path', 'pathobj', 'generator'] if kind['learner'] == 'ndl'
+                                            else ['path', 'path', 'list', 'generator'])
                     pieces.append(kind)
                 tasks.append(dict(p, op='chain', pieces=pieces, policy='error'))
                 metas.append((es, cut))
@@ -67,6 +71,8 @@ def run(rep, pool, driver, tier):
     for t, (es, cut), impl, model in zip(tasks, metas, impls, models):
         kinds = [pc['learner'] + ('+da' if pc.get('make_data_array') else '') + (':' + pc['method'] if 'method' in pc else '')
                  for pc in t['pieces']]
+        for pc in t['pieces']:
+            rep.count('form:%s/%s' % (pc['learner'], pc.get('form', 'path')))
         first_names = {x for c, o in es[:cut[0][1]] for x in c + o}
         later_new = any(x not in first_names for c, o in es[cut[0][1]:] for x in c + o)
         rep.case({'events': es, 'cut': cut, 'kinds': kinds}, nontrivial=True, stream='chain_k%d' % len(cut))
